@@ -4,7 +4,7 @@ inside a conversion.  Used by classifiers to attribute 'group with < 2 children'
 orphan decisions were taken) - and to nothing else."""
 from picomon import attach
 
-LAST = {"before": None, "after": None}
+LAST = {"before": None, "after": None, "stroke_junk": 0}
 _installed = False
 
 
@@ -31,6 +31,29 @@ def install():
 
     attach.wrap_method(SVG, "remove_unpainted_shapes", make)
 
+    # SVG._stroke promises (fill piece, stroke piece) only when the fill piece can paint; a fill
+    # piece that encloses no area at all is a *new* source of late-pruned elements, not the known one
+    def make_stroke(orig):
+        def _stroke(self, shape):
+            res = tuple(orig(self, shape))
+            if len(res) == 2:
+                try:
+                    from picomon.ref import pathgrammar as G, pathgeom as PG
+
+                    cmds = G.parse(res[0].as_path().d)
+                    if cmds is not None:
+                        polys = PG.flatten(cmds)
+                        if all(abs(PG.polygon_area(p)) <= 1e-12 for p in polys):
+                            LAST["stroke_junk"] += 1
+                except Exception:
+                    pass
+            return res
+
+        return _stroke
+
+    attach.wrap_method(SVG, "_stroke", make_stroke)
+
 
 def reset():
     LAST["before"] = LAST["after"] = None
+    LAST["stroke_junk"] = 0
